@@ -186,6 +186,8 @@ impl Scenario for HeightLimit {
                 keep.things.push(Box::new(v));
                 return;
             }
+            // the engine's bookkeeping after a reconfiguration (C11: pending work is still queued, nothing else is)
+            crate::world::audit_state(&st, false);
             // the old graph still works
             let x1 = if pending_write { x_early } else { fresh() };
             if !pending_write {
@@ -194,6 +196,7 @@ impl Scenario for HeightLimit {
             match catch(|| st.stabilise()) {
                 Err(msg) => violation("C19/stabilise-panics-after-reconfiguration", msg),
                 Ok(()) => {
+                    crate::world::audit_state(&st, true);
                     if let Ok(val) = o.try_get_value() {
                         let w = eval(&x1);
                         let (v2, w2) = (val.clone(), w.clone());
